@@ -529,8 +529,7 @@ impl Group for QueryStr {
             out.push(format!("{}:{}:{}:{}:[{}]:[{}]", hex(name.as_bytes()), show(get), show(first), show(last),
                 all.iter().map(|v| hex(v.as_bytes())).collect::<Vec<_>>().join(";"), back.iter().map(|v| hex(v.as_bytes())).collect::<Vec<_>>().join(";")));
         }
-        let _ = q.to_string();
-        out.join(" ")
+        format!("{} d={}", out.join(" "), hex(q.to_string().as_bytes()))
     }
     fn oracle(&self, _ctx: &Ctx, line: &str, out: &str) -> Option<(String, String)> {
         if out == "panic" {
